@@ -4,6 +4,7 @@ from lib.paths import Explorer, call_sequences
 from lib import tables
 from .common import Recorder
 
+INLINE = True      # crate-local helpers the rules do not know by name are inlined into their callers (lib/inline.py)
 EXPLANATION = (
     "R08.1 barrier placement: on all three recorder paths the start synchronisation is unavoidable between the input "
     "generation loop and the start timestamp, and the end synchronisation between the end timestamp and the first "
@@ -102,7 +103,14 @@ def r08_1(ctx, prog, crate, rec):
             # every wait is on the barrier parameter
             for c in sb.live_calls():
                 if c.callee == "std::sync::Barrier::wait":
-                    ctx.check({s.a for s in sb.prov.op_src(c.args[0]) if s.kind == "param"} == {sb.param_name(1)}, "R08.1",
+                    # the barrier handed in: a Barrier-typed parameter, or - when the helper was spliced into the closure
+                    # that calls it (lib.inline) - what that closure passed, i.e. its captured barrier
+                    given = {sb.param_name(i_) for i_ in range(1, sb.arg_count + 1) if "Barrier" in (sb.local_ty(i_) or "")}
+                    srcs_ = sb.prov.op_src(c.args[0])
+                    ps_ = {s.a for s in srcs_ if s.kind == "param"}
+                    us_ = {s.a for s in srcs_ if s.kind == "upvar"}
+                    ok_ = (ps_ and ps_ <= given and not us_) or (not ps_ and len(us_) == 1 and sb.kind == "Closure" and getattr(sb, "inlined", None))
+                    ctx.check(bool(ok_) and not any(s.kind in ("static", "call") and "Barrier::new" in str(s.a) for s in srcs_), "R08.1",
                               [sb.path, "waits-on-given-barrier"], "wait on a different barrier", c.line())
 
 
@@ -233,6 +241,41 @@ def r08_3(ctx, prog, crate, rec):
     ctx.check(not bad, "R08.3", [b.path, "recorder-stays-on-its-thread"], "the recorder reaches %s" % bad, b.where(0))
 
 
+def r08_7(ctx, prog, crate, rec):
+    """A synchronisation request is honoured whenever there is a barrier: on every path through the recorder's sync
+    closure (and through the helper it calls, when that is a separate function) that performs no Barrier::wait, the
+    path's conditions say that no barrier was given. Nothing else - a flag, a type property, the phase - may skip the
+    rendezvous: the other threads still wait, or start dropping while this thread is timing."""
+    from lib.patheval import PathEval
+    b = rec.body
+    n = 0
+    for sp in rec.sync_closures:
+        cb = prog.bodies.get((b.crate, sp, -1))
+        if cb is None:
+            continue
+        bodies, _, _ = prog.callee_closure([cb], crate=b.crate)
+        waiters = {x.path for x in bodies if any(c.callee == "std::sync::Barrier::wait" for c in x.live_calls())}
+        for x in [cb] + [y for y in bodies if y.path in waiters and y is not cb]:
+            sums = PathEval(x, max_paths=2000).run()
+            if not ctx.check(bool(sums), "R08.7", [x.path, "paths"], "cannot enumerate the paths of `%s`" % x.path, x.where(0)):
+                continue
+            ctx.saw(x)
+
+            def waits(s):
+                return [c for c in s.calls if c[0] == "std::sync::Barrier::wait" or (c[0] in waiters and c[0] != x.path)]
+            subj = {a[1] for s in sums if waits(s) for a, p in s.conds if a[0] == "discr" and a[2] == 1 and p}
+            for s in sums:
+                if waits(s):
+                    continue
+                n += 1
+                none = [a for a, p in s.conds if a[0] == "discr" and a[1] in subj and a[2] != 1 and p]
+                delegating = x is cb and not any(c.callee == "std::sync::Barrier::wait" for c in x.live_calls())
+                ctx.check(bool(none) and not delegating, "R08.7", [x.path, "skips-only-without-a-barrier"],
+                          "`%s` has a path that returns without waiting although a barrier may have been given (conditions on that path: %s)" %
+                          (x.path, [(a, p) for a, p in s.conds][:4]), x.where(s.blocks[-1]))
+    ctx.anchor("R08.7", "paths of the synchronisation code that do not wait", n, 1)
+
+
 def r08_4(ctx, prog, crate, rec):
     cands = [b for b in prog.lib_bodies(crate) if any(c.callee == "util::thread::pool::ThreadPool::par_extend" for c in b.live_calls())
              and "::tests::" not in b.path and not b.path.startswith("util::thread::pool")]
@@ -329,4 +372,5 @@ def run(ctx, prog, crate):
     r08_2(ctx, prog, crate, rec)
     r08_3(ctx, prog, crate, rec)
     r08_4(ctx, prog, crate, rec)
+    r08_7(ctx, prog, crate, rec)
     r08_5(ctx, prog, crate, rec)
